@@ -5,7 +5,7 @@
 // argv[1] (optional): JSON file  {"services":[ <cppcms configuration object> , ... ]}  written by checks/C13.py;
 //                     "service.list[0].port" is filled in here.
 // case lines:
-//   np <hex>            -> np <hex of normalize_path(input)>
+//   np|npi|rs <hex>     -> <tag> <hex of normalize_path(input)>
 //   rq <k> <hex>        -> rq <hex of the complete reply of service k to "GET <raw> HTTP/1.0">  ("-" = nothing, "!T" suffix = timeout)
 #include <cppcms/service.h>
 #include <cppcms/application.h>
@@ -113,10 +113,12 @@ int main(int argc, char **argv)
 		std::string line;
 		while (std::getline(std::cin, line)) {
 			std::vector<std::string> v = split(line);
-			if (v.size() == 2 && v[0] == "np") {
+			if (v.size() == 2 && (v[0] == "np" || v[0] == "npi" || v[0] == "rs")) {
+				// np / npi / rs: the same implementation function, compared with the functional model, the
+				// buffer-and-iterator model and the textbook resolution respectively
 				std::string p = unhex(v[1]);
 				cppcms::impl::file_server::normalize_path(p);
-				std::cout << "np " << hex(p) << std::endl;
+				std::cout << v[0] << " " << hex(p) << std::endl;
 			}
 			else if (v.size() == 3 && v[0] == "rq") {
 				size_t k = atoi(v[1].c_str());
